@@ -316,14 +316,12 @@ def run_case(case):
 
     # eager, twice
     src = make(False)
-    before = src.array.copy()
     e1 = np.asarray(noisy(src).array)
     e2 = np.asarray(noisy(make(False)).array)
     e3 = np.asarray(noisy(src).array)  # same receiver again
     ok = np.array_equal(e1, e2) and np.array_equal(e1, e3)
     acc.add(OB_REPRO, ok, "" if ok else f"eager: two calls with seed={seed} differ in {int((e1 != e2).sum() + (e1 != e3).sum())} values",
             bool(np.any(e1 != 0)))
-    assert np.array_equal(np.asarray(src.array), before) or True
     good = _check_array(acc, "eager", e1, sig, doses, has_dose_axis, samples, ens, base)
 
     r = rng_for(case["data_seed"], "C31-chunks")
@@ -343,9 +341,7 @@ def run_case(case):
             det = (f"{tag}: lazy result differs from the eager result with the same seed={seed} in "
                    f"{int((a1 != e1).sum()) if a1.shape == e1.shape else 'shape'} of {e1.size} values "
                    f"(first rows: lazy {a1.reshape(-1)[:6].tolist()} eager {e1.reshape(-1)[:6].tolist()})")
-        nblocks = int(np.prod([len(c) for c in ch])) if ch else 1
         acc.add(OB_LAZY, ok, det, bool(np.any(e1 != 0)))
         if good:
             _check_array(acc, tag, a1, sig, doses, has_dose_axis, samples, ens, base)
-        del nblocks
     return acc.results()
